@@ -32,6 +32,7 @@ func TestCheck(t *testing.T) {
 	if os.Getenv("C14_ONLY") == "" || os.Getenv("C14_ONLY") == "stress" {
 		cleanupStress(r)
 		createAuto(r)
+		overlappingRefreshes(r)
 	}
 	if os.Getenv("C14_ONLY") == "" || os.Getenv("C14_ONLY") == "fields" {
 		fieldFidelity(r, dir)
@@ -74,6 +75,7 @@ func TestCheck(t *testing.T) {
 		r.Require("stress_cleanups_in_flight_during_sync:released_inside_sync", 300)
 		r.Require("create_auto_device_overlapping_sync", 40)
 		r.Require("create_auto_device_ok", 30)
+		r.Require("overlapping_refresh_cases", 15)
 		r.Require("sync_requests_checked", 1000)
 		r.Require("syncs_failed_full", 8)
 		r.Require("sync_requests_incremental_after_failed_full", 10)
